@@ -117,3 +117,63 @@ func zzH_C02r() {
 		vReach("end")
 	})
 }
+
+// zzH_C02w: the write of a request fails while the connection's read side stays up (nothing else will
+// ever complete the call): the call is completed, once, with the write error, and is no longer counted
+// as outstanding - for every header encoder, mode and call form; a later call on the connection works.
+func zzH_C02w() {
+	m := newZZMsgs(8)
+	var enc Encoder
+	switch vChoose("header-encoder", 3) {
+	case 1:
+		enc = NewHeaderEncoder("pb")()
+	case 2:
+		enc = NewHeaderEncoder("code")()
+	}
+	conn := NewConnWithCodec(NewClientCodec(&zzBytesCodec{}, enc, m, 64))
+	switch vChoose("mode", 3) {
+	case 1:
+		conn.directIO = true
+	case 2:
+		conn.SetPipelining(true)
+	}
+	m.writeErr = func(n int) error {
+		if n == 0 {
+			return errZZWrite
+		}
+		return nil
+	}
+	args := []byte{0x41}
+	var reply []byte
+	done := make(chan *Call, 4)
+	var c *Call
+	var err error
+	returned := false
+	form := vChoose("form", 3)
+	vGo("caller", func() {
+		switch form {
+		case 0:
+			c = conn.Go("S.Echo", &args, &reply, done)
+		case 1:
+			err = conn.Call("S.Echo", &args, &reply)
+		case 2:
+			err = conn.Ping()
+		}
+		returned = true
+	})
+	vQuiesce()
+	vAssert(returned, "call-with-failed-write-completes")
+	if returned {
+		if form == 0 {
+			vAssert(len(done) == 1 && c.Error == errZZWrite, "call-with-failed-write-completes")
+		} else {
+			vAssert(err == errZZWrite, "call-with-failed-write-completes")
+		}
+		vAssert(conn.NumCalls() == 0, "failed-request-not-counted-as-outstanding")
+	}
+	m.fail(io.EOF)
+	vAtEnd(func() {
+		vAssert(len(done) <= 1, "exactly-once")
+		vReach("end")
+	})
+}
